@@ -231,6 +231,13 @@ func tokens(fd *ast.FuncDecl, methods map[string]bool) []string {
 				} else {
 					toks = append(toks, "read:To")
 				}
+			} else if x.Sel.Name == "source" {
+				// the descriptor a RefSchema was registered for (ConcSites.code_hitpol)
+				if writes[x] {
+					toks = append(toks, "write:source")
+				} else {
+					toks = append(toks, "read:source")
+				}
 			} else if writes[x] {
 				if id, ok := x.X.(*ast.Ident); ok && id.Name == recv && recv != "" {
 					toks = append(toks, "setfield:"+x.Sel.Name)
